@@ -111,11 +111,19 @@ class Effects:
 
     def _closure_of(self, fl, op):
         """(closure path, creating stmt) if operand is a closure value created in this body"""
-        if op.place is None or op.place.proj:
+        hops = 0
+        while op is not None and op.place is not None and not op.place.proj and hops < 6:
+            hops += 1
+            d = fl.single_def(op.place.local)
+            if d is None or getattr(d, "rv", None) is None:
+                return None
+            if d.rv.k == "aggr" and d.rv.j["ak"] == "closure":
+                return (d.rv.j["closure"], d)
+            if d.rv.k == "use" and d.rv.ops:
+                # a closure bound to a variable and then copied / moved into the call
+                op = d.rv.ops[0]
+                continue
             return None
-        d = fl.single_def(op.place.local)
-        if d is not None and getattr(d, "rv", None) is not None and d.rv.k == "aggr" and d.rv.j["ak"] == "closure":
-            return (d.rv.j["closure"], d)
         return None
 
     def events(self, path):
